@@ -23,6 +23,11 @@ class Env(object):
 
     def boom(self, *args):
         self.log.append(("boom", args))
+        if len(args) == 1:
+            # an ordinary exception whose arguments are not JSON values (UnicodeDecodeError carries the bytes)
+            b"\xff\xfe".decode("utf-8")
+        if len(args) == 2:
+            raise KeyError(("tuple", b"key"))
         raise RuntimeError("kaboom")
 
     def te(self, x):
